@@ -7,7 +7,7 @@
    equality of the WHOLE selector state: selections, stored rows/columns and targets,
    distance tables, distances at selection. *)
 From Verif Require Import ListX Greedy FPS Voronoi Select ListXP GreedyP FPSP FPSInst GeomP
-  VoronoiP SimP SelectP HistoryP C02Thm C01Thm C08Thm.
+  VoronoiP SimP SelectP HistoryP C02Thm C01Thm C08Thm SelSession SelSessionP CURWarm CURWarmP.
 
 (* requesting a+b selections = requesting a, then continuing with b more (any scorer) *)
 Theorem C08_run_add :
@@ -107,3 +107,145 @@ Example C08_nonvacuous :
   = fst (fps_run cs None NoThr 5 (fps_init cs None [0%nat])) /\
   sel (fst (fps_run cs None NoThr 5 (fps_init cs None [0%nat]))) = [0; 4; 2; 1; 3]%nat.
 Proof. cbv zeta. split; vm_compute; reflexivity. Qed.
+
+(* ==== Extension (round 3) ======================================================================
+   (1) SESSIONS: any sequence of calls on one object -- cold fits, warm starts, calls that raise,
+       set_params in between (Model/SelSession.v).
+   (2) The CUR family as an object with its residual matrix, INCLUDING the warm-start path
+       (_continue_greedy_search: guarded re-orthogonalisation loop, score recomputation) and a
+       change of recompute_every between two fits (Model/CURWarm.v; the linear algebra is
+       abstract and enters through the stated laws). *)
+
+(* calls of fit that are rejected leave no trace: deleting them from a session does not change
+   the state it ends in (so a chain of warm starts interleaved with failed calls is a chain) *)
+Theorem C08_session_rejected_calls_leave_no_trace :
+  forall cand ycand evs o,
+    sess_run cand ycand o (sess_kept cand ycand o evs) = sess_run cand ycand o evs.
+Proof. exact sess_drop_rejected. Qed.
+Print Assumptions C08_session_rejected_calls_leave_no_trace.
+
+(* warm_start is rejected after ANY history in which no call of fit has returned with a
+   selection: a new object, calls rejected by validation, cold fits that raised while making
+   their initial selections, set_params in between -- sessions of any length *)
+Theorem C08_session_never_fitted_rejected :
+  forall cand ycand evs c r str,
+    never_returned cand ycand None evs = true -> Select.c_warm c = true ->
+    sess_fit cand ycand (sess_run cand ycand None evs) c r str
+    = (sess_run cand ycand None evs, RPre).
+Proof. exact sess_never_fitted_rejected. Qed.
+Print Assumptions C08_session_never_fitted_rejected.
+
+(* ... in particular directly after a cold fit that raised inside _init_greedy_search, also on
+   an object that had been fitted before *)
+Theorem C08_session_failed_init_then_warm_rejected :
+  forall cand ycand o c r str c' r' str',
+    snd (sess_fit cand ycand o c r str) = RInit -> Select.c_warm c' = true ->
+    snd (sess_fit cand ycand (fst (sess_fit cand ycand o c r str)) c' r' str') = RPre.
+Proof. exact sess_failed_init_then_warm. Qed.
+Print Assumptions C08_session_failed_init_then_warm_rejected.
+
+(* a cold fit does not see the history of the object (what it returns, and the state it leaves
+   unless it is rejected before touching the object) *)
+Theorem C08_session_cold_fit_history_free :
+  forall cand ycand o c r str,
+    Select.c_warm c = false ->
+    snd (sess_fit cand ycand o c r str) = snd (sess_fit cand ycand None c r str) /\
+    (snd (sess_fit cand ycand o c r str) <> RPre ->
+     fst (sess_fit cand ycand o c r str) = fst (sess_fit cand ycand None c r str)).
+Proof. exact sess_cold_history_free. Qed.
+Print Assumptions C08_session_cold_fit_history_free.
+
+(* CUR family, recompute_every in {0,1}: cold fit with k0, then EVERY non-decreasing schedule of
+   warm-started fits -- each running the guarded re-orthogonalisation loop over the selected
+   items and recomputing the scores -- ends equivalent to the single cold fit with the last
+   value: same selections, stored data, first_score_, residual matrix, counters, and the same
+   score on every item that can still be selected ([g_equiv]). *)
+Theorem C08_cur_fits_equal_cold :
+  forall (M : Type) (orth : M -> list nat -> nat -> M) (pi_of : M -> list Z)
+         (stale : M -> nat -> bool) cand ycand,
+    (forall x, length (pi_of x) = length cand) ->
+    (forall x l i, stale (orth x l i) i = false) ->
+    (forall x l i c, stale x c = false -> stale (orth x l i) c = false) ->
+    forall re X k0 sched nr,
+      (re <= 1)%nat -> nondecreasing_from k0 (sched ++ [nr]) -> (nr <= length cand)%nat ->
+      g_equiv M
+        (cu_chain M orth pi_of stale cand ycand re
+           (fst (cu_run M orth pi_of cand ycand re NoThr k0 (cu_g0 M pi_of X))) (sched ++ [nr]))
+        (fst (cu_run M orth pi_of cand ycand re NoThr nr (cu_g0 M pi_of X))).
+Proof. exact cur_fits_equal_cold. Qed.
+Print Assumptions C08_cur_fits_equal_cold.
+
+(* the same from any reachable pair of equivalent objects (the invariant [J]: the scores held
+   are those of the residual off the selected items; no selected item is stale) *)
+Theorem C08_cur_chain_equals_cold :
+  forall (M : Type) (orth : M -> list nat -> nat -> M) (pi_of : M -> list Z)
+         (stale : M -> nat -> bool) cand ycand,
+    (forall x, length (pi_of x) = length cand) ->
+    (forall x l i, stale (orth x l i) i = false) ->
+    (forall x l i c, stale x c = false -> stale (orth x l i) c = false) ->
+    forall re, (re <= 1)%nat ->
+    forall sched g h nr,
+      g_equiv M g h -> GInv (cur M) cand ycand (CP M cand) h ->
+      J M pi_of stale cand re (sst h) (sel h) ->
+      nondecreasing_from (length (sel h)) (sched ++ [nr]) -> (nr <= length cand)%nat ->
+      g_equiv M (cu_chain M orth pi_of stale cand ycand re g (sched ++ [nr]))
+                (fst (cu_run M orth pi_of cand ycand re NoThr (nr - length (sel h)) h)).
+Proof. exact cur_chain_equals_cold. Qed.
+Print Assumptions C08_cur_chain_equals_cold.
+
+(* equivalent objects make the same further selections, for every recompute_every and threshold *)
+Theorem C08_cur_equivalent_objects_continue_alike :
+  forall (M : Type) (orth : M -> list nat -> nat -> M) (pi_of : M -> list Z) cand ycand
+         re t k g1 g2,
+    g_equiv M g1 g2 ->
+    g_equiv M (fst (cu_run M orth pi_of cand ycand re t k g1))
+              (fst (cu_run M orth pi_of cand ycand re t k g2)) /\
+    snd (cu_run M orth pi_of cand ycand re t k g1) = snd (cu_run M orth pi_of cand ycand re t k g2).
+Proof. exact run_equiv. Qed.
+Print Assumptions C08_cur_equivalent_objects_continue_alike.
+
+(* set_params(recompute_every=1) after a fit with recompute_every=0, then a warm start: the
+   selector continues exactly as a recompute_every=1 selector that had made the same selections
+   (the CUR analogue of initialising FPS with the selected prefix).  [orth] must not read the
+   result buffers (true of _CUR; _PCovCUR reads X_selected_/y_selected_ for y_current_). *)
+Theorem C08_cur_switch_recompute_every :
+  forall (M : Type) (orth : M -> list nat -> nat -> M) (pi_of : M -> list Z)
+         (stale : M -> nat -> bool) cand ycand,
+    (forall x, length (pi_of x) = length cand) ->
+    (forall x l l' c, orth x l c = orth x l' c) ->
+    (forall x l c, stale x c = false -> orth x l c = x) ->
+    forall X k0 k,
+      let g0 := fst (cu_run M orth pi_of cand ycand 0 NoThr k0 (cu_g0 M pi_of X)) in
+      g_equiv M (cu_warm_fit M orth pi_of stale cand ycand 1 k g0)
+                (fst (cu_run M orth pi_of cand ycand 1 NoThr (k - length (sel g0))
+                             (cu_forced M orth pi_of cand ycand 1 X (sel g0)))).
+Proof. exact switch_fit. Qed.
+Print Assumptions C08_cur_switch_recompute_every.
+
+(* non-vacuity.  Sessions: warm start on a new object; a cold fit whose initialisation list is
+   longer than n_to_select; the warm start after it; the cold fit after that equals a fresh one. *)
+Example C08_session_nonvacuous :
+  let cs := [[0;0];[3;0];[0;4];[1;1];[5;5]] in
+  let warm k := mk_cfg (NtsInt k) NoThr false true in
+  let cold k := mk_cfg (NtsInt k) NoThr false false in
+  let str := [[0;9;16;2;50];[0;0;16;2;25]] in
+  let evs := [EFit (warm 3) (InitIdx [0]) str; ESet; EFit (cold 2) (InitIdx [0;1;2]) str; EPre;
+              EFit (warm 4) (InitIdx [0]) str] in
+  never_returned cs None None evs = true /\
+  sess_run cs None None evs = Some g_reset /\
+  (exists g, sess_fit cs None (sess_run cs None None evs) (cold 3) (InitIdx [0]) str
+             = (Some g, ROk g false) /\ sel g = [0; 4; 2]%nat).
+Proof. cbv zeta. split; [vm_compute; reflexivity|]. split; [vm_compute; reflexivity|].
+       eexists. split; vm_compute; reflexivity. Qed.
+
+(* CUR object: the toy instance of the laws (Proofs/CURWarmP.v); a chain with recompute_every=1
+   and the switch 0 -> 1 evaluated *)
+Example C08_cur_nonvacuous :
+  let cs := [[1];[2];[3];[4];[5]] in
+  let X := [3; 9; 4; 7; 5] in
+  let fit re k := fst (cu_run (list Z) toy_orth (fun x => x) cs None re NoThr k (cu_g0 (list Z) (fun x => x) X)) in
+  sel (cu_chain (list Z) toy_orth (fun x => x) toy_stale cs None 1 (fit 1%nat 1%nat) [2; 4]%nat) = [1; 3; 4; 2]%nat /\
+  sel (fit 1%nat 4%nat) = [1; 3; 4; 2]%nat /\
+  sel (cu_warm_fit (list Z) toy_orth (fun x => x) toy_stale cs None 1 4 (fit 0%nat 2%nat)) = [1; 3; 4; 2]%nat /\
+  xc (sst (cu_warm_fit (list Z) toy_orth (fun x => x) toy_stale cs None 1 4 (fit 0%nat 2%nat))) = [3; 0; 0; 0; 0].
+Proof. cbv zeta. repeat split; vm_compute; reflexivity. Qed.
